@@ -964,21 +964,37 @@ func (s *decScope) ruleDAHint(rule string) {
 					continue
 				}
 				for _, sz := range []ssa.Value{mk.Len, mk.Cap} {
-					phi, ok := stripConv(sz).(*ssa.Phi)
-					if !ok {
-						continue
-					}
-					isClamp := false
-					for _, e := range phi.Edges {
-						if _, isC := e.(*ssa.Const); isC {
-							isClamp = true
+					// a clamped count: `if n > K { n = K }` (a phi with a constant
+					// edge) or MinInt(n, K) / min(n, K)
+					var phi ssa.Value
+					comment := ""
+					switch x := stripConv(sz).(type) {
+					case *ssa.Phi:
+						for _, e := range x.Edges {
+							if _, isC := e.(*ssa.Const); isC {
+								phi, comment = x, x.Comment
+							}
+						}
+					case *ssa.Call:
+						name := ""
+						if f := x.Call.StaticCallee(); f != nil {
+							name = f.Name()
+						} else if bi, ok := x.Call.Value.(*ssa.Builtin); ok {
+							name = bi.Name()
+						}
+						if (name == "MinInt" || name == "min") && len(x.Call.Args) == 2 {
+							for _, a := range x.Call.Args {
+								if _, isC := a.(*ssa.Const); isC {
+									phi, comment = x, name
+								}
+							}
 						}
 					}
-					if !isClamp {
+					if phi == nil {
 						continue
 					}
 					n++
-					key := fmt.Sprintf("%s hint#%d %s", qname(fn), n, phi.Comment)
+					key := fmt.Sprintf("%s hint#%d %s", qname(fn), n, comment)
 					// all (transitive through conversions) uses must be makes
 					var badUse ssa.Instruction
 					var walk func(v ssa.Value)
@@ -1002,7 +1018,7 @@ func (s *decScope) ruleDAHint(rule string) {
 						}
 					}
 					walk(phi)
-					if stripConv(mk.Len) == ssa.Value(phi) {
+					if stripConv(mk.Len) == phi {
 						c.bad(rule, key, mk.Pos(), "a count clamped for pre-allocation is used as the LENGTH of the container (not only its capacity): the container holds at most the clamp's worth of elements and data beyond it is silently dropped")
 						continue
 					}
